@@ -238,6 +238,8 @@ pub fn run(ctx: &mut Ctx) {
             judge_doc(ctx, &sp, "time-limited to=\"2000-01-01 00:00:00\"", &cfg, false, &format!("garbage-offset-doc:{off}"));
         }
     }
+    // ---- Decision events in full documents
+    super::decision_stage(ctx, "C05", 53, if quick { 200_000 } else { 4_000_000 }, 0.92);
     // ---- monotonicity: fixed source cleaned at increasing instants
     let total: u64 = if quick { 40_000 } else { 600_000 };
     for i in (shard..total).step_by(n as usize) {
